@@ -1,6 +1,7 @@
 package c09
 
 import (
+	"fmt"
 	"strings"
 	"sync"
 	"testing"
@@ -63,19 +64,31 @@ func paramsOf(fn string) []param {
 }
 
 var (
-	boundValues = []string{"i:-1", "i:0", "i:1", "i:2", "i:3", "i:4", "i:8", "nil"}
-	stringVals  = []string{"s:", "s:abc", "s:λ", "s:aλ", "s:日本語", "s:λλa"}
-	listVals    = []string{"nil", "e:(list 1 2 3)", "e:(list #\\a #\\b #\\a)", "alist", "dotted"}
-	vectorVals  = []string{"e:(vector 1 2 3)", "vec0", "bitv", "octets", "fpvec"}
-	typeValues  = map[string][]string{
+	boundValues = []string{"i:-1", "i:0", "i:1", "i:2", "i:3", "i:4", "i:8", "i:9223372036854775807", "i:-9223372036854775808", "nil"}
+	bitVectors  = func() (vs []string) {
+		for _, n := range []int{0, 4, 8, 9} {
+			bits := strings.Repeat("10", 5)[:n]
+			list := strings.TrimSpace(strings.Join(strings.Split(bits, ""), " "))
+			vs = append(vs,
+				"e:#*"+bits, // reader
+				"e:(coerce '("+list+") 'bit-vector)",
+				fmt.Sprintf("e:(make-array %d :element-type 'bit :initial-element 1)", n),
+				fmt.Sprintf("e:(make-array %d :element-type 'bit :adjustable nil)", n))
+		}
+		return
+	}()
+	stringVals = []string{"s:", "s:abc", "s:λ", "s:aλ", "s:日本語", "s:λλa"}
+	listVals   = []string{"nil", "e:(list 1 2 3)", "e:(list #\\a #\\b #\\a)", "alist", "dotted"}
+	vectorVals = []string{"e:(vector 1 2 3)", "vec0", "bitv", "octets", "fpvec", "fpover", "fpshrunk", "adjarr"}
+	typeValues = map[string][]string{
 		"string":           stringVals,
 		"list":             listVals,
 		"cons":             listVals[1:],
 		"vector":           vectorVals,
 		"simple-vector":    {"e:(vector 1 2 3)", "vec0"},
 		"array":            append(append([]string{}, vectorVals...), "arr2d"),
-		"bit-array":        {"bitv", "e:(make-array 0 :element-type 'bit)"},
-		"simple-bit-array": {"bitv"},
+		"bit-array":        append([]string{"bitv", "bvcoerce4", "bvfixed8", "bvread9"}, bitVectors...),
+		"simple-bit-array": append([]string{"bitv"}, bitVectors...),
 		"octets":           {"octets", "e:(string-to-octets \"aλ\")", "e:(make-octets 0)"},
 		"character":        {"c:a", "c:λ", "c: "},
 		"object":           {"c:a", "i:1", "s:a", "sym", "nil"},
@@ -89,8 +102,8 @@ var (
 		"number":           {"i:0", "i:1", "i:-1", "e:1.5d0", "e:0.0001d0", "ratio"},
 		"float":            {"e:0.0d0", "e:1.5d0", "e:0.0001d0", "e:-2.5s0", "e:1.0d21"},
 		"rational":         {"i:0", "i:1", "i:-1", "ratio", "big2e64"},
-		"integer":          boundValues[:7],
-		"fixnum":           boundValues[:7],
+		"integer":          boundValues[:9],
+		"fixnum":           boundValues[:9],
 		"octet":            {"i:0", "i:1", "i:255"},
 		"hash-table":       {"hash"},
 		"package":          {"pkg"},
@@ -216,7 +229,7 @@ func gridCases(fn string) (cases []Case) {
 		}
 	}
 	if len(bounds) == 0 {
-		return nil
+		return pairCases(fn, ps, seqs)
 	}
 	// groups of at most two bound parameters that belong together: (start end), (start1 end1), (start2 end2), single ones
 	var groups [][]int
@@ -288,6 +301,30 @@ func gridCases(fn string) (cases []Case) {
 	return
 }
 
+// pairCases: a function without bound parameters but with two sequence-like required or optional parameters is called
+// with all pairs of their value sets (the other parameters typical).
+func pairCases(fn string, ps []param, _ []int) (cases []Case) {
+	// required and optional sequence-like parameters, e.g. (bit-not bit-array &optional opt-arg)
+	var seqs []int
+	for i, p := range ps {
+		if isSeqLike(p) && p.kind <= 1 {
+			seqs = append(seqs, i)
+		}
+	}
+	if len(seqs) < 2 {
+		return nil
+	}
+	a, b := seqs[0], seqs[1]
+	for _, va := range valuesOf(ps[a].typ) {
+		for _, vb := range valuesOf(ps[b].typ) {
+			if c := (Case{Fn: fn, Mode: "q", Args: buildTyped(ps, map[int]string{a: va, b: vb})}); !notDriven(c) {
+				cases = append(cases, c)
+			}
+		}
+	}
+	return
+}
+
 func hostileBound(args []string) bool {
 	for _, a := range args {
 		if strings.HasPrefix(a, "i:") && a != "i:0" {
@@ -299,7 +336,7 @@ func hostileBound(args []string) bool {
 
 func runGrid(c Case) *h.Result {
 	res := runCall(c)
-	res.NonTrivial = hostileBound(c.Args)
+	res.NonTrivial = hostileBound(c.Args) || len(c.Args) >= 2
 	return res
 }
 
